@@ -6,6 +6,7 @@ package main
 
 import (
 	"fmt"
+	"math/big"
 	"math/rand"
 	"os"
 	"sync"
@@ -63,6 +64,13 @@ func genCase(rng *rand.Rand) *caseDesc {
 	c.Burst = int64(vk.PickI(rng, 0, 0, 1, 3, 10))
 	c.Dur = int64(vk.PickI(rng, 1, 1, 2, 5))
 	c.MaxQ = int64(vk.PickI(rng, 0, 1, 100, 500, 3000))
+	if rng.Intn(8) == 0 {
+		// large figures: the refill / pacing arithmetic must not overflow or truncate
+		c.Thr = vk.PickI64(rng, 1000, 1000000, 3000000000)
+		c.Burst = vk.PickI64(rng, 0, 5, 1000000)
+		c.Dur = vk.PickI64(rng, 60, 3600, 100000)
+		c.MaxQ = vk.PickI64(rng, 0, 60000, 10000000, 5000000000)
+	}
 	c.Idx = vk.PickI(rng, 0, 0, 0, 2, -1, -3)
 	if rng.Intn(5) == 0 && c.Idx <= 0 {
 		c.Key = "k"
@@ -103,6 +111,9 @@ func genCase(rng *rand.Rand) *caseDesc {
 			a.Dt = D - 1
 		case 8:
 			a.Dt = 3*D + uint64(rng.Intn(100))
+			if rng.Intn(6) == 0 {
+				a.Dt += 1 << 32 // idle for 49.7 days and a bit
+			}
 		case 9:
 			if c.Thr > 0 {
 				a.Dt = D / uint64(c.Thr)
@@ -248,6 +259,77 @@ func play(c *caseDesc, t0 uint64, keep func(a arrival) bool, fail func(i int, cl
 	return out, true
 }
 
+// ---- composition of two rules on one resource. Rule A selects argument 0, rule B argument 1; both values come from
+// the same small universe. The list [A, B] is installed by a reload of [A-with-another-threshold] (so that the
+// managers' statistic re-use paths run). Each rule must meter its own argument only: the decisions must equal
+// (A alone on a fresh resource) AND (B alone on a fresh resource, fed with the requests A admitted).
+type compReq struct {
+	Dt uint64 `json:"dt"`
+	X  int    `json:"x"`
+	Y  int    `json:"y"`
+}
+type compCase struct {
+	TA, BA, TB, BB int64
+	Dur            int64
+	Reqs           []compReq `json:"requests"`
+	FailAt         int       `json:"fail_at,omitempty"`
+}
+
+func runCompose(idx int, rng *rand.Rand) {
+	c := &compCase{TA: int64(1 + rng.Intn(4)), BA: int64(rng.Intn(2)), TB: int64(1 + rng.Intn(4)), BB: int64(rng.Intn(2)), Dur: int64(1 + rng.Intn(2))}
+	for i, n := 0, 20+rng.Intn(40); i < n; i++ {
+		c.Reqs = append(c.Reqs, compReq{Dt: []uint64{0, 0, 1, 100, 400, 1000, 1001, 2500}[rng.Intn(8)], X: rng.Intn(3), Y: rng.Intn(3)})
+	}
+	run.Begin(idx, c)
+	mkA := func(res string, thr int64) *hotspot.Rule {
+		return &hotspot.Rule{ID: "A", Resource: res, MetricType: hotspot.QPS, ControlBehavior: hotspot.Reject, ParamIndex: 0, Threshold: thr, BurstCount: c.BA, DurationInSec: c.Dur}
+	}
+	mkB := func(res string) *hotspot.Rule {
+		return &hotspot.Rule{ID: "B", Resource: res, MetricType: hotspot.QPS, ControlBehavior: hotspot.Reject, ParamIndex: 1, Threshold: c.TB, BurstCount: c.BB, DurationInSec: c.Dur}
+	}
+	t0 := clk.Ms() + 3600*1000
+	playOn := func(res string, keep []bool) []bool {
+		out := make([]bool, len(c.Reqs))
+		t := t0
+		for i, q := range c.Reqs {
+			t += q.Dt
+			if keep != nil && !keep[i] {
+				continue
+			}
+			clk.SetMs(t)
+			e, b := sentinel.Entry(res, sentinel.WithArgs(q.X, q.Y))
+			out[i] = b == nil
+			if e != nil {
+				e.Exit()
+			}
+		}
+		return out
+	}
+	caseNo++
+	rAB, rA, rB := fmt.Sprintf("c05x-%d-ab", caseNo), fmt.Sprintf("c05x-%d-a", caseNo), fmt.Sprintf("c05x-%d-b", caseNo)
+	defer func() {
+		for _, r := range []string{rAB, rA, rB} {
+			hotspot.ClearRulesOfResource(r)
+		}
+	}()
+	hotspot.LoadRulesOfResource(rAB, []*hotspot.Rule{mkA(rAB, c.TA+7)})
+	hotspot.LoadRulesOfResource(rAB, []*hotspot.Rule{mkA(rAB, c.TA), mkB(rAB)})
+	hotspot.LoadRulesOfResource(rA, []*hotspot.Rule{mkA(rA, c.TA)})
+	hotspot.LoadRulesOfResource(rB, []*hotspot.Rule{mkB(rB)})
+	got := playOn(rAB, nil)
+	dA := playOn(rA, nil)
+	dB := playOn(rB, dA)
+	for i := range c.Reqs {
+		if want := dA[i] && dB[i]; got[i] != want {
+			c.FailAt = i
+			run.Violation("C05/composition:rules-not-independent", fmt.Sprintf("request %d (arg0=%d, arg1=%d): with the rules A (argument 0) and B (argument 1) on one resource the decision is admitted=%v; A alone decides %v and B alone (fed with what A admitted) %v", i, c.Reqs[i].X, c.Reqs[i].Y, got[i], dA[i], dB[i]), c)
+			return
+		}
+	}
+	run.Count("composition_requests", int64(len(c.Reqs)))
+	run.Distinct(vk.Hash("compose", c.TA, c.BA, c.TB, c.BB, c.Dur, c.Reqs))
+}
+
 func runCase(idx int, c *caseDesc) {
 	t0 := uint64(1900000000000) + uint64(idx)*100000000
 	mode := "reject"
@@ -333,9 +415,11 @@ func runCase(idx int, c *caseDesc) {
 				for _, x := range perVal[v] {
 					tot += x.b
 				}
-				lhs := tot * int64(D)
-				rhs := (T+c.Burst)*int64(D) + T*int64(d.at-firstSeen[v])
-				if lhs > rhs {
+				// (arbitrary precision: thresholds of 3e9 over 49.7 idle days exceed 64 bits)
+				lhs := new(big.Int).Mul(big.NewInt(tot), big.NewInt(int64(D)))
+				rhs := new(big.Int).Mul(big.NewInt(T+c.Burst), big.NewInt(int64(D)))
+				rhs.Add(rhs, new(big.Int).Mul(big.NewInt(T), big.NewInt(int64(d.at-firstSeen[v]))))
+				if lhs.Cmp(rhs) > 0 {
 					fail(i, "E1:long-run-envelope", fmt.Sprintf("arrival %d: value %v admitted %d tokens in [%d,%d], envelope (T+burst)+T*elapsed/duration = %d+%d*%d/%d", i, universe[v], tot, firstSeen[v], d.at, T+c.Burst, T, d.at-firstSeen[v], D))
 					return
 				}
@@ -655,13 +739,18 @@ func main() {
 	}
 	run = vk.Start("C05", "seq")
 	defer run.Finish()
-	run.Rule("case = one hot-param QPS rule (reject or throttling; threshold 0-50, burst 0-10, duration 1-5 s, queueing 0-3000 ms, index 0/2/-1/-3 or attachment key, specific items, optional capacity possibly below the 1-12 live values) + 30-150 arrivals (value or no selected argument, batch, hostile deltas around the duration); envelopes E1/E2/E3, spacing and queueing bound per value, arg-less never limited, projection equality on up to 3 values; distinct = distinct (decision trace, rule) with a pass and a block.")
+	run.Rule("case = one hot-param QPS rule (reject or throttling; threshold 0-50, burst 0-10, duration 1-5 s, queueing 0-3000 ms, index 0/2/-1/-3 or attachment key, specific items, optional capacity possibly below the 1-12 live values) + 30-150 arrivals (value or no selected argument, batch, hostile deltas around the duration); envelopes E1/E2/E3, spacing and queueing bound per value, arg-less never limited, projection equality on up to 3 values; every sixth case: two rules on different arguments installed by a reload, decisions = (A alone) AND (B alone fed with what A admitted); distinct = distinct (decision trace, rule) with a pass and a block.")
 	run.Assume("sequential callers; sleeps are recorded, not slept (pass time = arrival + requested sleep)", "envelopes asserted only while distinct live values <= configured capacity", "spacing uses the controller's ms clock: floor(batch*duration/threshold)")
 	clk = vclock.New(1900000000000)
 	clk.ReadLimit = 1000000
 	n := run.N(400, 15000)
 	for i := 0; i < n; i++ {
 		if run.Skip(i) {
+			continue
+		}
+		if i%6 == 5 {
+			rng := run.Rand(i)
+			run.Guard("C05/panic", nil, func() { runCompose(i, rng) })
 			continue
 		}
 		c := genCase(run.Rand(i))
